@@ -122,9 +122,18 @@ CLAIMS = {
     category="proof",
     text=("Proved for all values: the save codec of stack objects (control commands, native calls, strings, ints, "
           "bools, glue, void, tags), of integer dictionaries (visit and turn counts) and of push/pop codes decodes "
-          "what it encodes. NOT proved: decode(encode(s)) = s for whole states (partial) — decided by the tie (the "
-          "model's save equals the real save, normalised, after every step of every history) and by the oracle: a "
-          "fresh story that loaded the save is played in lockstep with the original over a random continuation."),
+          "what it encodes; and for WHOLE states (Proofs/C02State.lean): for every saveable story (explicit decidable "
+          "invariant Saveable, proved sound: saveableB_sound) the save loads into every story over the same tree and "
+          "yields restoredState (loadState_saveState); in normal form every saved component — flows, call stacks, "
+          "threads, choices, globals, evaluation stack, visit / turn counts, seed — is restored EQUAL "
+          "(loadState_saveState_exact), loading a story's own save gives the story back (loadState_saveState_self). "
+          "The token / code tables the codec rests on are proved equal to tables regenerated from the Rust source on "
+          "every run (Proofs/Tables.lean, translators/tables.py). NOT proved (partial): that every state reachable by "
+          "playing is Saveable and in normal form (checked by the executable saveableB on the states the tie visits), "
+          "and 'same future behaviour' as a consequence of state equality (it follows from determinism of the model; "
+          "the real code is covered by the tie — the model's save equals the real save, normalised, after every step "
+          "of every history — and by the oracle: a fresh story that loaded the save is played in lockstep with the "
+          "original over a random continuation, incl. second-generation saves)."),
     design_ref="DESIGN.md section 5 C02",
     note="As C09. Error/warning lists are not part of a save; the cosmetic choice index is ignored.",
     technique="Lean 4 round-trip theorems over the save codec (partial) + differential correspondence + lockstep oracle"),
